@@ -27,7 +27,9 @@ for line in open(f"{ROOT}/KNOWN_FINDINGS.txt"):
         print(wit, "replay failed", e); continue
     out = p.stdout + p.stderr
     # the decoded case may span many lines; it ends where the verdict lines begin
-    case = re.search(r"^case: (.*?)\n(?=PASS |FAIL |VIOLATION |KNOWN-FINDING|NOTE |\Z)", out, re.M | re.S)
+    # (a case may describe itself more than once, each time more precisely: the last one counts)
+    cases = list(re.finditer(r"^case: (.*?)\n(?=case: |PASS |FAIL |VIOLATION |KNOWN-FINDING|NOTE |\Z)", out, re.M | re.S))
+    case = cases[-1] if cases else None
     sigs = re.findall(r"sig=(\S+)", out)
     if kind == "known":
         ok = p.returncode == 124 or (p.returncode == 1 and sig in sigs)
